@@ -182,6 +182,10 @@ def modfunc(ex, state, mod, name, args, kw, line):
         return call_contract(ex, state, 'fn:' + name, args, kw, line)
     if mod in ('utl', '_time', 'time'):
         return SNum('t')
+    if mod == 'np.random' and name == 'rand':
+        for x in args:
+            ctx.oblige(state, 'nonneg-dimension', line, zi(x) >= 0, 'negative dimensions are not allowed')
+        return npmodel.new_arr(state, list(args), False)
     if mod == 'math' and name == 'factorial':
         n = args[0]
         ctx.oblige(state, 'factorial-domain', line, zi(n) >= 0, 'math.factorial of a negative number raises ValueError')
